@@ -283,6 +283,10 @@ def c09(ctx, e):
         if first[1] == "error":
             if n == 0:
                 ctx.violation("empty-input", f"{node['k']} over zero items raised {first[2][:80]}", scen_of(e))
+            elif not node.get("bad_serdes"):
+                # the call itself raised: whatever the branches did, a decided call returns a BatchResult
+                ctx.violation("call-raised", f"{node['k']} at {path} raised {first[2][:120]} instead of returning a BatchResult", scen_of(e))
+                return
             continue
         pb = parse_batch(first[2])
         if pb is None:
